@@ -151,7 +151,20 @@ fn main() {
                     })
                 }
                 E::Sk { pw, k } => {
-                    let p = if c.v2 { Sk::encrypt_v6(Rng::new(200 + ei as u64), &Password::from(pws[*pw]), &keyof(*k), s2k(ei as u64), c.sym, AeadAlgorithm::Ocb).ok() } else { Sk::encrypt_v4(&Password::from(pws[*pw]), &keyof(*k), s2k(ei as u64), c.sym).ok() };
+                    // v4: the packet's own cipher wraps the session key and need not be the message cipher (RFC 9580 5.3.1):
+                    // now and then another AES size, written by hand (the library's encrypt_v4 always uses the message cipher)
+                    let wrap = [c.sym, SymmetricKeyAlgorithm::AES128, SymmetricKeyAlgorithm::AES256, SymmetricKeyAlgorithm::AES192][(case + ei) % 4];
+                    let p = if c.v2 { Sk::encrypt_v6(Rng::new(200 + ei as u64), &Password::from(pws[*pw]), &keyof(*k), s2k(ei as u64), c.sym, AeadAlgorithm::Ocb).ok() }
+                        else if wrap == c.sym { Sk::encrypt_v4(&Password::from(pws[*pw]), &keyof(*k), s2k(ei as u64), c.sym).ok() }
+                        else {
+                            let sk2 = s2k(ei as u64);
+                            (|| -> Option<Sk> {
+                                let key = sk2.derive_key(pws[*pw].as_bytes(), wrap.key_size()).ok()?;
+                                let mut d = vec![u8::from(c.sym)]; d.extend_from_slice(keyof(*k).as_ref());
+                                wrap.encrypt_with_iv_regular(key.as_ref(), &vec![0u8; wrap.block_size()], &mut d).ok()?;
+                                Some(Sk::V4 { packet_header: pgp::packet::PacketHeader::new_fixed(pgp::types::Tag::SymKeyEncryptedSessionKey, (2 + pgp::ser::Serialize::write_len(&sk2) + d.len()) as u32), sym_algorithm: wrap, s2k: sk2.clone(), encrypted_key: d.into() })
+                            })()
+                        };
                     p.and_then(|p| Packet::from(p).to_bytes().ok())
                 }
             };
